@@ -167,6 +167,15 @@ func flipPos(wf *wireFault, n int) int {
 			return 0
 		}
 		return 5 + wf.Off%min(body, 16)
+	case "pad_far": // far from the end: inside long CBC padding when the peer pads generously, otherwise somewhere in the body
+		if body <= 0 {
+			return 0
+		}
+		d := 40 + wf.Off%200
+		if d >= body {
+			d = wf.Off % body
+		}
+		return n - 1 - d
 	case "tail": // tag / MAC / padding
 		if body <= 0 {
 			return 0
